@@ -44,7 +44,7 @@ inductive Score
 inductive Value
   | str (b : BS)
   | list (l : List BS)
-  | set (s : NSet)                 -- member codes
+  | set (s : NMap Unit)            -- member codes (a canonical set = a map to Unit)
   | hash (h : NMap BS)             -- field code ↦ value bytes
   | zset (z : List (BS × Score))   -- (member bytes, score), sorted by (score, member)
   deriving DecidableEq, Repr
@@ -92,6 +92,7 @@ inductive Err
   | badFlags         -- ERR NX and XX, GT or LT options at the same time are not compatible
   | noSuchKey        -- ERR no such key
   | indexRange       -- ERR index out of range
+  | hashNotInt       -- ERR hash value is not an integer
   | tooLong          -- ERR string exceeds maximum allowed size (proto-max-bulk-len)
   | syntax           -- ERR syntax error
   | notFloat         -- ERR value is not a valid float / min or max is not a float
@@ -701,6 +702,218 @@ def execLMove (s : State) (src dst : Nat) (frm to : Side) : State × Reply :=
         | .missing => (putList (putList s src rest dl) dst [x] none, .bulk x)
         | .found l' dl' => (putList (putList s src rest dl) dst (pushOne to l' x) dl', .bulk x)
 
+/-! ## sets -/
+
+abbrev MSet := NMap Unit
+
+inductive SetLookup
+  | missing
+  | wrong
+  | found (m : MSet) (dl : Option Nat)
+
+def lookupSet (s : State) (k : Nat) : SetLookup :=
+  match NMap.get s k with
+  | none => .missing
+  | some e =>
+    match e.val with
+    | .set m => .found m e.dl
+    | _ => .wrong
+
+/-- store a set; an empty set is not stored -/
+def putSet (s : State) (k : Nat) (m : MSet) (dl : Option Nat) : State :=
+  match m with
+  | [] => NMap.erase k s
+  | _ :: _ => NMap.insert k ⟨.set m, dl⟩ s
+
+/-- add members one by one; second component = how many were new -/
+def saddAll : MSet → List Nat → MSet × Nat
+  | m, [] => (m, 0)
+  | m, c :: cs =>
+    if (NMap.get m c).isSome then saddAll m cs
+    else ((saddAll (NMap.insert c () m) cs).1, (saddAll (NMap.insert c () m) cs).2 + 1)
+
+/-- remove members one by one; second component = how many were present -/
+def sremAll : MSet → List Nat → MSet × Nat
+  | m, [] => (m, 0)
+  | m, c :: cs =>
+    if (NMap.get m c).isSome then ((sremAll (NMap.erase c m) cs).1, (sremAll (NMap.erase c m) cs).2 + 1)
+    else sremAll m cs
+
+def execSAdd (s : State) (k : Nat) (ms : List Nat) : State × Reply :=
+  match ms with
+  | [] => (s, .err .syntax)
+  | _ :: _ =>
+    match lookupSet s k with
+    | .wrong => (s, .err .wrongType)
+    | .missing => (putSet s k (saddAll [] ms).1 none, .int (saddAll [] ms).2)
+    | .found m dl => (putSet s k (saddAll m ms).1 dl, .int (saddAll m ms).2)
+
+def execSRem (s : State) (k : Nat) (ms : List Nat) : State × Reply :=
+  match lookupSet s k with
+  | .missing => (s, .int 0)
+  | .wrong => (s, .err .wrongType)
+  | .found m dl => (putSet s k (sremAll m ms).1 dl, .int (sremAll m ms).2)
+
+/-- order unspecified in Redis; the correspondence compares sorted -/
+def execSMembers (s : State) (k : Nat) : State × Reply :=
+  match lookupSet s k with
+  | .missing => (s, .arr [])
+  | .wrong => (s, .err .wrongType)
+  | .found m _ => (s, .arr (m.map (fun p => Elem.key p.1)))
+
+def execSIsMember (s : State) (k : Nat) (c : Nat) : State × Reply :=
+  match lookupSet s k with
+  | .missing => (s, .int 0)
+  | .wrong => (s, .err .wrongType)
+  | .found m _ => (s, .int (if (NMap.get m c).isSome then 1 else 0))
+
+def execSCard (s : State) (k : Nat) : State × Reply :=
+  match lookupSet s k with
+  | .missing => (s, .int 0)
+  | .wrong => (s, .err .wrongType)
+  | .found m _ => (s, .int m.length)
+
+/-- remove the chosen members in turn; `none` if one of them is not (or no longer) a member -/
+def removeChosen : MSet → List Nat → Option MSet
+  | m, [] => some m
+  | m, c :: cs => if (NMap.get m c).isSome then removeChosen (NMap.erase c m) cs else none
+
+/-- SPOP key: a relation — any member may be popped.  The op carries the implementation's
+    choice; the model accepts it iff it is a member (else it pops its own first member, which
+    shows up as a disagreement). -/
+def execSPop1 (s : State) (k : Nat) (choice : List Nat) : State × Reply :=
+  match lookupSet s k with
+  | .missing => (s, .nil)
+  | .wrong => (s, .err .wrongType)
+  | .found m dl =>
+    match m with
+    | [] => (s, .nil)
+    | p :: rest =>
+      match choice with
+      | [c] => if (NMap.get m c).isSome then (putSet s k (NMap.erase c m) dl, .key c)
+               else (putSet s k rest dl, .key p.1)
+      | _ => (putSet s k rest dl, .key p.1)
+
+/-- SPOP key count: min(count, card) distinct members are removed (all of them → key gone);
+    the choice is validated the same way -/
+def execSPopN (s : State) (k : Nat) (n : Nat) (choice : List Nat) : State × Reply :=
+  match lookupSet s k with
+  | .missing => (s, .arr [])
+  | .wrong => (s, .err .wrongType)
+  | .found m dl =>
+    if choice.length = min n m.length then
+      match removeChosen m choice with
+      | some m' => (putSet s k m' dl, .arr (choice.map Elem.key))
+      | none => (putSet s k (m.drop (min n m.length)) dl, .arr ((m.take (min n m.length)).map (fun p => Elem.key p.1)))
+    else (putSet s k (m.drop (min n m.length)) dl, .arr ((m.take (min n m.length)).map (fun p => Elem.key p.1)))
+
+/-! ## hashes -/
+
+abbrev MHash := NMap BS
+
+inductive HashLookup
+  | missing
+  | wrong
+  | found (h : MHash) (dl : Option Nat)
+
+def lookupHash (s : State) (k : Nat) : HashLookup :=
+  match NMap.get s k with
+  | none => .missing
+  | some e =>
+    match e.val with
+    | .hash h => .found h e.dl
+    | _ => .wrong
+
+def putHash (s : State) (k : Nat) (h : MHash) (dl : Option Nat) : State :=
+  match h with
+  | [] => NMap.erase k s
+  | _ :: _ => NMap.insert k ⟨.hash h, dl⟩ s
+
+/-- set fields one by one (later pairs win); second component = how many fields were new -/
+def hsetAll : MHash → List (Nat × BS) → MHash × Nat
+  | h, [] => (h, 0)
+  | h, (f, v) :: fvs =>
+    if (NMap.get h f).isSome then hsetAll (NMap.insert f v h) fvs
+    else ((hsetAll (NMap.insert f v h) fvs).1, (hsetAll (NMap.insert f v h) fvs).2 + 1)
+
+def hdelAll : MHash → List Nat → MHash × Nat
+  | h, [] => (h, 0)
+  | h, f :: fs =>
+    if (NMap.get h f).isSome then ((hdelAll (NMap.erase f h) fs).1, (hdelAll (NMap.erase f h) fs).2 + 1)
+    else hdelAll h fs
+
+def execHSet (s : State) (k : Nat) (fvs : List (Nat × BS)) : State × Reply :=
+  match fvs with
+  | [] => (s, .err .syntax)
+  | _ :: _ =>
+    match lookupHash s k with
+    | .wrong => (s, .err .wrongType)
+    | .missing => (putHash s k (hsetAll [] fvs).1 none, .int (hsetAll [] fvs).2)
+    | .found h dl => (putHash s k (hsetAll h fvs).1 dl, .int (hsetAll h fvs).2)
+
+def execHGet (s : State) (k : Nat) (f : Nat) : State × Reply :=
+  match lookupHash s k with
+  | .missing => (s, .nil)
+  | .wrong => (s, .err .wrongType)
+  | .found h _ =>
+    match NMap.get h f with
+    | none => (s, .nil)
+    | some v => (s, .bulk v)
+
+def execHDel (s : State) (k : Nat) (fs : List Nat) : State × Reply :=
+  match lookupHash s k with
+  | .missing => (s, .int 0)
+  | .wrong => (s, .err .wrongType)
+  | .found h dl => (putHash s k (hdelAll h fs).1 dl, .int (hdelAll h fs).2)
+
+def execHGetAll (s : State) (k : Nat) : State × Reply :=
+  match lookupHash s k with
+  | .missing => (s, .arr [])
+  | .wrong => (s, .err .wrongType)
+  | .found h _ => (s, .arr (h.flatMap (fun p => [Elem.key p.1, Elem.bulk p.2])))
+
+def execHKeys (s : State) (k : Nat) : State × Reply :=
+  match lookupHash s k with
+  | .missing => (s, .arr [])
+  | .wrong => (s, .err .wrongType)
+  | .found h _ => (s, .arr (h.map (fun p => Elem.key p.1)))
+
+def execHVals (s : State) (k : Nat) : State × Reply :=
+  match lookupHash s k with
+  | .missing => (s, .arr [])
+  | .wrong => (s, .err .wrongType)
+  | .found h _ => (s, .arr (h.map (fun p => Elem.bulk p.2)))
+
+def execHLen (s : State) (k : Nat) : State × Reply :=
+  match lookupHash s k with
+  | .missing => (s, .int 0)
+  | .wrong => (s, .err .wrongType)
+  | .found h _ => (s, .int h.length)
+
+def execHExists (s : State) (k : Nat) (f : Nat) : State × Reply :=
+  match lookupHash s k with
+  | .missing => (s, .int 0)
+  | .wrong => (s, .err .wrongType)
+  | .found h _ => (s, .int (if (NMap.get h f).isSome then 1 else 0))
+
+/-- the integer currently stored under a field: missing field = 0; `none` = not a canonical i64 -/
+def hfieldInt (h : MHash) (f : Nat) : Option Int :=
+  match NMap.get h f with
+  | none => some 0
+  | some b => parseCanon b
+
+/-- HINCRBY: like INCRBY on one field ("hash value is not an integer" / "would overflow") -/
+def execHIncrBy (s : State) (k : Nat) (f : Nat) (d : Int) : State × Reply :=
+  match lookupHash s k with
+  | .wrong => (s, .err .wrongType)
+  | .missing => (putHash s k (NMap.insert f (showInt d) []) none, .int d)
+  | .found h dl =>
+    match hfieldInt h f with
+    | none => (s, .err .hashNotInt)
+    | some v =>
+      if inI64 (v + d) then (putHash s k (NMap.insert f (showInt (v + d)) h) dl, .int (v + d))
+      else (s, .err .overflow)
+
 /-! ## commands -/
 
 inductive Cmd
@@ -756,6 +969,23 @@ inductive Cmd
   | ltrim (k : Nat) (a b : Int)
   | rpoplpush (src dst : Nat)
   | lmove (src dst : Nat) (frm to : Side)
+  -- sets
+  | sadd (k : Nat) (ms : List Nat)
+  | srem (k : Nat) (ms : List Nat)
+  | smembers (k : Nat)
+  | sismember (k : Nat) (m : Nat)
+  | scard (k : Nat)
+  | spop (k : Nat) (count : Option Nat) (choice : List Nat)
+  -- hashes
+  | hset (k : Nat) (fvs : List (Nat × BS))
+  | hget (k : Nat) (f : Nat)
+  | hdel (k : Nat) (fs : List Nat)
+  | hgetall (k : Nat)
+  | hkeys (k : Nat)
+  | hvals (k : Nat)
+  | hlen (k : Nat)
+  | hexists (k : Nat) (f : Nat)
+  | hincrby (k : Nat) (f : Nat) (d : Int)
   deriving Repr
 
 /-- execute on a state that holds no dead entry -/
@@ -807,6 +1037,22 @@ def exec (s : State) (now : Nat) : Cmd → State × Reply
   | .ltrim k a b => execLTrim s k a b
   | .rpoplpush a b => execLMove s a b .right .left
   | .lmove a b f t => execLMove s a b f t
+  | .sadd k ms => execSAdd s k ms
+  | .srem k ms => execSRem s k ms
+  | .smembers k => execSMembers s k
+  | .sismember k m => execSIsMember s k m
+  | .scard k => execSCard s k
+  | .spop k none ch => execSPop1 s k ch
+  | .spop k (some n) ch => execSPopN s k n ch
+  | .hset k fvs => execHSet s k fvs
+  | .hget k f => execHGet s k f
+  | .hdel k fs => execHDel s k fs
+  | .hgetall k => execHGetAll s k
+  | .hkeys k => execHKeys s k
+  | .hvals k => execHVals s k
+  | .hlen k => execHLen s k
+  | .hexists k f => execHExists s k f
+  | .hincrby k f d => execHIncrBy s k f d
 
 /-- one command at instant `now` -/
 def step (s : State) (now : Nat) (c : Cmd) : State × Reply := exec (purge s now) now c
@@ -822,7 +1068,9 @@ def run : State → List (Nat × Cmd) → State × List Reply
 def isReadOnly : Cmd → Bool
   | .get _ | .getrange _ _ _ | .strlen _ | .mget _ | .exists _ | .type _ | .keys
   | .ttl _ | .pttl _ | .expiretime _ | .pexpiretime _ | .randomkey _ | .dbsize
-  | .llen _ | .lindex _ _ | .lrange _ _ _ => true
+  | .llen _ | .lindex _ _ | .lrange _ _ _
+  | .smembers _ | .sismember _ _ | .scard _
+  | .hget _ _ | .hgetall _ | .hkeys _ | .hvals _ | .hlen _ | .hexists _ _ => true
   | _ => false
 
 /-! ## invariant -/
@@ -831,7 +1079,7 @@ def isReadOnly : Cmd → Bool
 def ValueOk : Value → Prop
   | .str _ => True
   | .list l => l ≠ []
-  | .set m => m ≠ [] ∧ NSet.WF m
+  | .set m => m ≠ [] ∧ NMap.WF m
   | .hash h => h ≠ [] ∧ NMap.WF h
   | .zset z => z ≠ []
 
